@@ -69,7 +69,7 @@ def build(layer):
     """Build the harness (and therefore /repo's crates from the current working tree) for a layer.
     Returns the command prefix that runs the harness."""
     env = env_offline()
-    if layer == "plain":
+    if layer in ("plain", "stress"):
         _run_build(["cargo", "build", "--offline", "--profile", "verif"], env, "plain")
         return [os.path.join(WORK, "target", "verif", "harness")], env
     if layer == "asan":
